@@ -10,16 +10,19 @@ from vlib import unitmodel as um
 from vlib.harness import Sub
 
 PROPERTY = "C07"
-RULE = ("comparison cases: six operators x rhs kind (Array, python number, np.float64, ndarray, Quantity) x dtypes x "
+RULE = ("comparison cases: six operators x rhs kind (Array, python number, numpy scalar float64/float32/int64, ndarray, Quantity with "
+        "ndarray or python-scalar magnitude) x dtypes x "
         "broadcast shape pairs x unit pairs (same / compatible-different incl. scaled dimensionless such as cm/m, "
         "percent / incompatible); rhs values engineered around equality after conversion: b = a*ratio*(1+d), "
-        "d in {0, +-1e-3, +-0.5} element-wise.  Oracle: numpy comparison of the two physical values in cgs from the "
+        "d in {0, +-1e-3, +-0.5, -2 (opposite sign), 1e6} element-wise, NaN / +-inf on either side.  Oracle: numpy comparison of the two physical values in cgs from the "
         "independent unit model, asserted where they differ by more than the tolerance (exact ties only when both "
         "operands are bit-identical in the same unit); result must be a dimensionless bool Array of the broadcast "
         "shape; incompatible dimensions must raise.  logical cases: & | ^ ~ on bool Arrays of generated shapes plus "
         "the exhaustive 2x2 truth tables.  non-trivial = the verdict differs from comparing raw magnitudes "
         "(the conversion mattered) in at least one element; distinct = distinct canonical JSON.")
 ASSUMPTIONS = [
+    "the Array is the left operand (the statement: 'the right operand is converted to the left operand's unit'); an ndarray, "
+    "numpy scalar or Quantity on the left is dispatched by numpy / pint and is not generated",
     "a bare number / ndarray is a dimensionless quantity: comparing it with a dimensional Array must raise",
     "elements whose physical values differ by less than 1e-9 (64 eps for float32 operands: 1e-5) relative are not judged",
 ]
@@ -58,7 +61,7 @@ def cmp_case_st(draw):
         src = avals[i % len(avals)]
         if isinstance(src, float) and not np.isfinite(src):
             src = 1.0
-        d = draw(st.sampled_from([0.0, 0.0, 1e-3, -1e-3, 0.5, -0.5]))
+        d = draw(st.sampled_from([0.0, 0.0, 1e-3, -1e-3, 0.5, -0.5, -2.0, 1e6]))     # -2.0: the opposite sign
         ratio = fa[0] / fb[0] if compatible else 1.0
         v = float(src) * ratio * (1.0 + d)
         if dtb.startswith("int"):
@@ -67,15 +70,27 @@ def cmp_case_st(draw):
             v = float(np.dtype(dtb).type(v))
             if not np.isfinite(v):
                 v = 1.0
+            if dtb == "float64" and draw(st.integers(0, 24)) == 0:
+                v = draw(st.sampled_from(["nan", "inf", "-inf"]))          # non-finite right operands are converted too
         bvals.append(v)
     if bk in ("num", "npf"):
-        b = {"k": bk, "v": bvals[0] if bvals else 1.0}
+        v0 = bvals[0] if bvals else 1.0
+        if isinstance(v0, str):
+            v0 = 1.0
+        b = {"k": bk, "v": v0}
         if bk == "npf":
             b["v"] = float(b["v"])
+            b["dt"] = draw(st.sampled_from(["float64", "float64", "float32", "int64"]))
+            if b["dt"] == "int64":
+                b["v"] = int(round(b["v"])) if abs(b["v"]) < 2 ** 30 else 1
+            elif b["dt"] == "float32" and not np.isfinite(np.float32(b["v"])):
+                b["v"] = 1.0
     elif bk == "nd":
         b = {"k": "nd", "dtype": dtb, "shape": sb, "vals": bvals}
     else:
         b = {"k": bk, "dtype": dtb, "shape": sb, "vals": bvals, "unit": ub}
+        if bk == "Q" and not sb and draw(st.booleans()):
+            b["pyscalar"] = True                      # arr < 150 * units("cm"): the magnitude is a plain python number
     return {"op": op, "a": a, "b": b}
 
 
@@ -119,10 +134,10 @@ def compare(case, r):
         ac = np.broadcast_to(um.to_cgs(av, au), want_shape)
         bc = np.broadcast_to(um.to_cgs(bv, bu), want_shape)
         want = NPOP[op](ac, bc)
-        lowp = any(np.dtype(s.get("dtype", "float64")) == np.float32 for s in (case["a"], case["b"]))
+        lowp = any(np.dtype(s.get("dtype", s.get("dt", "float64"))) == np.float32 for s in (case["a"], case["b"]))
         tol = 1e-5 if lowp else 1e-9
         decidable = np.abs(ac - bc) > tol * np.maximum(np.abs(ac), np.abs(bc))
-        decidable |= np.isnan(ac) | np.isnan(bc) | (np.isinf(ac) & np.isinf(bc))
+        decidable |= np.isnan(ac) | np.isnan(bc) | np.isinf(ac) | np.isinf(bc)     # an infinity compares exactly
         # exact ties: same unit and identical raw values
         same_unit = abs(au[0] / bu[0] - 1) == 0
         if same_unit:
